@@ -144,8 +144,59 @@ def _guards(path):
 # ---------------------------------------------------------------------------------------
 
 
+def _search_eps_convention(p):
+    """How the repository's `searchsorted` applies its `eps` to the last knot: 'absolute'
+    (`knots[..., -1] += eps`), 'relative' (the added amount also involves the knots themselves,
+    e.g. `eps * (knots[..., -1] - knots[..., 0])`) or None when no such store is found."""
+    m = p.modules.get("nflows.utils.torchutils")
+    fi = m.functions.get("searchsorted") if m is not None else None
+    node = getattr(fi, "node", None)
+    if node is None or "eps" not in [a.arg for a in node.args.args]:
+        return None, None
+    arg0 = node.args.args[0].arg
+
+    def last_knot(t):
+        if not isinstance(t, ast.Subscript):
+            return False
+        sl = t.slice
+        last = sl.elts[-1] if isinstance(sl, ast.Tuple) and sl.elts else sl
+        return const_number(last) == -1
+
+    # names that carry the knots (the argument and its copies) and names derived from them
+    knotty = {arg0}
+    changed = True
+    assigns = [st for st in ast.walk(node) if isinstance(st, ast.Assign) and len(st.targets) == 1 and isinstance(st.targets[0], ast.Name)]
+    while changed:
+        changed = False
+        for st in assigns:
+            if st.targets[0].id not in knotty and {n.id for n in ast.walk(st.value) if isinstance(n, ast.Name)} & knotty:
+                knotty.add(st.targets[0].id)
+                changed = True
+    for st in ast.walk(node):
+        added = None
+        if isinstance(st, ast.AugAssign) and isinstance(st.op, ast.Add) and last_knot(st.target):
+            added = st.value
+        elif isinstance(st, ast.Assign) and len(st.targets) == 1 and last_knot(st.targets[0]) and isinstance(st.value, ast.BinOp) and isinstance(st.value.op, ast.Add):
+            l, r = st.value.left, st.value.right
+            if last_knot(l):
+                added = r
+            elif last_knot(r):
+                added = l
+        if added is None:
+            continue
+        nm = {n.id for n in ast.walk(added) if isinstance(n, ast.Name)}
+        if "eps" not in nm:
+            continue
+        if isinstance(added, ast.BinOp) and isinstance(added.op, ast.Mult) and (nm & knotty):
+            return "relative", fi
+        if nm == {"eps"}:
+            return "absolute", fi
+    return None, fi
+
+
 def pin_rule(ctx):
     p = ctx.p
+    eps_conv, search_fi = _search_eps_convention(p)
     res_pin = RuleResult("SPL-PIN", "every searched knot vector has both end-points stored exactly (0/1 for unit knots, the box arguments for scaled ones) before it is searched")
     res_eps = RuleResult("EPS-UNITS", "the right-edge epsilon of the bin search is in the units of the knots: unit knots, or an epsilon scaled by the box")
     res_side = RuleResult("INV-SIDE", "forward searches the x-knots and maps into the y-box; inverse searches the y-knots and maps into the x-box")
@@ -207,7 +258,20 @@ def pin_rule(ctx):
                     else:
                         etxt = norm_text(eps).replace(" ", "") if eps is not None else ""
                         want = "(%s-%s)" % (hi_sym, lo_sym)
-                        if eps is not None and want in etxt:
+                        if eps_conv == "relative" and eps is not None and const_number(eps) is None:
+                            res_eps.fail(
+                                Finding(
+                                    "EPS-UNITS",
+                                    inner.module,
+                                    inner.qualname,
+                                    inner.node,
+                                    "the %s-knots are searched with eps=`%s`, already scaled by the box, and %s scales its eps by the extent of the knots once more: the nudge is eps * extent**2, absorbed by rounding for a small box, so an input equal to the upper end falls outside the last bin and the bin lookup runs off the end" % (side, norm_text(eps), search_fi.qualname),
+                                    construct="eps of the %s-knot search, inverse=%s (scaled twice)" % (side, inverse),
+                                )
+                            )
+                        elif eps_conv == "relative":
+                            res_eps.ok("%s: scaled knots, eps relative to the extent of the knots in %s" % (tag, search_fi.qualname))
+                        elif eps is not None and want in etxt:
                             res_eps.ok("%s: scaled knots, eps scaled by %s" % (tag, want))
                         else:
                             res_eps.fail(
